@@ -169,6 +169,31 @@ def small_mixed(rnd, a5, gen):
     return out
 
 
+def head_cascade(rnd, a5, gen):
+    """the numerically first cell Q of the list is given as [children of its first child] + [its other children] (two passes must
+    merge it), followed by a dozen or more cells that sort after it, among them another complete sibling group that merges in the
+    first pass; canonical form = [Q] + the loose cells + that group's parent"""
+    face = rnd.randrange(0, 8)
+    rq = rnd.randint(1, 26)
+    Q = gen.cell_by_path(a5, face, rnd.randrange(5), gen.digits_pattern(rnd, rq - 1))
+    kids = a5.cell_to_children(Q)
+    depth = rnd.randint(1, 2)
+    head = kids[0]
+    out = []
+    for _ in range(depth):
+        hk = a5.cell_to_children(head)
+        out.extend(hk[1:])
+        head = hk[0]
+    out.append(head)
+    out.extend(kids[1:])
+    later_faces = list(range(face + 1, 12))
+    for _ in range(rnd.randint(10, 16)):
+        out.append(gen.cell_by_path(a5, rnd.choice(later_faces), rnd.randrange(5), gen.digits_pattern(rnd, rnd.randint(0, 20))))
+    g = gen.cell_by_path(a5, rnd.choice(later_faces), rnd.randrange(5), gen.digits_pattern(rnd, rnd.randint(0, 24)))
+    out.extend(a5.cell_to_children(g))
+    return out
+
+
 def random_large(rnd, a5, gen, size_lo=300, size_hi=3000):
     """a big mixed-resolution set with many complete and almost complete sibling groups"""
     out = []
